@@ -54,7 +54,12 @@ def main2():
         try:
             for p in props:
                 t0 = time.time()
+                # the evidence file describes the unchanged tree: keep it (a run against a seeded change must not replace it)
+                evp = os.path.join(V, "evidence", p + ".json")
+                keep = open(evp, "rb").read() if os.path.exists(evp) else None
                 rc, out = sh([os.path.join(V, "check"), p, "--tier", tier], cwd=V, timeout=3600)
+                if keep is not None:
+                    open(evp, "wb").write(keep)
                 viol = [l for l in out.split("\n") if l.startswith("VIOLATION")]
                 replays = []
                 for l in viol:
